@@ -91,7 +91,7 @@ func modInverseRule(P *Program, R *Report) {
 		switch {
 		case isB && okv:
 			nTrue++
-			if gcd == nil || siteOf(v) != siteOf(gcd.Call.Args[1]) || desc(gcd.Call.Args[3]) != "arg#0" || desc(gcd.Call.Args[4]) != "arg#1" {
+			if gcd == nil || siteOf(v) != siteOf(callArgs(gcd)[1]) || desc(callArgs(gcd)[3]) != "arg#0" || desc(callArgs(gcd)[4]) != "arg#1" {
 				okObj = false
 			}
 		default:
@@ -107,7 +107,7 @@ func modInverseRule(P *Program, R *Report) {
 	okNorm := false
 	var normDetail string
 	if gcd != nil {
-		xSite := siteOf(gcd.Call.Args[1])
+		xSite := siteOf(callArgs(gcd)[1])
 		bx := termFn("BezoutX", tsym("arg#0"), tsym("arg#1"))
 		for _, r := range returnsOf(fn) {
 			if okv, isB := boolConst(retValue(r, 1)); !isB || !okv {
@@ -118,12 +118,12 @@ func modInverseRule(P *Program, R *Report) {
 					if !ok {
 						return false
 					}
-					rel, bound, ok := g.relFor(gcd.Call.Args[1], be)
+					rel, bound, ok := g.relFor(callArgs(gcd)[1], be)
 					return ok && ((rel == ">=" && bound.equal(tconst(1))) || (rel == ">" && bound.equal(tconst(0))))
 				},
 				Instr: func(_ *ssa.Function, i ssa.Instruction) bool {
 					c, ok := i.(*ssa.Call)
-					if !ok || bigMethod(c) != "Add" || siteOf(c.Call.Args[0]) != xSite {
+					if !ok || bigMethod(c) != "Add" || siteOf(callArgs(c)[0]) != xSite {
 						return false
 					}
 					ts := be.at(c)
@@ -202,7 +202,7 @@ func modPowRule(P *Program, R *Report) {
 		if len(ts) < 2 || !ts[1].equal(termFn("ModInverse", x, m)) {
 			continue
 		}
-		inv := call.Call.Args[1]
+		inv := callArgs(call)[1]
 		nInv++
 		q := &MustPass{P: P, Match: func(a Atom) bool { return siteOf(a.V) == siteOf(inv) && a.Want == NonNil }}
 		q.init()
@@ -286,13 +286,13 @@ func modSqrtRule(P *Program, R *Report) {
 			// PrimeSqrt(a mod fac, fac) reported a root
 			if c, idx := callAndResult(a.V); c != nil && calleeIs(c, "common.PrimeSqrt") && idx == 1 && a.Want == True {
 				ts := be.at(c)
-				d1 := desc(c.Call.Args[1])
+				d1 := desc(callArgs(c)[1])
 				return (d1 == "arg#1[#i]" || d1 == "arg#1[*]") && len(ts) >= 1 && ts[0].equal(termFn("Mod", tsym("arg#0"), tsym(d1)))
 			}
 			// factor 4: second bit of a clear
 			if bo, ok := a.V.(*ssa.BinOp); ok {
-				if c, isC := stripConv(bo.X).(*ssa.Call); isC && bigMethod(c) == "Bit" && desc(c.Call.Args[0]) == "arg#0" {
-					if i, okk := constInt(c.Call.Args[1]); okk && i == 1 {
+				if c, isC := stripConv(bo.X).(*ssa.Call); isC && bigMethod(c) == "Bit" && desc(callArgs(c)[0]) == "arg#0" {
+					if i, okk := constInt(callArgs(c)[1]); okk && i == 1 {
 						if kk, okc := constInt(bo.Y); okc && kk == 0 && ((bo.Op == token.NEQ && a.Want == False) || (bo.Op == token.EQL && a.Want == True)) {
 							return true
 						}
@@ -310,7 +310,7 @@ func modSqrtRule(P *Program, R *Report) {
 		bg := P.bigEval(g)
 		for _, c := range callsIn(g) {
 			call, isC := c.(*ssa.Call)
-			if !isC || bigMethod(c) != "Bit" || desc(call.Call.Args[0]) != "arg#0" {
+			if !isC || bigMethod(c) != "Bit" || desc(callArgs(call)[0]) != "arg#0" {
 				continue
 			}
 			for _, at := range controllingConds(call.Block()) {
@@ -330,12 +330,12 @@ func modSqrtRule(P *Program, R *Report) {
 			continue
 		}
 		if calleeIs(c, "common.Crt") {
-			d3 := desc(call.Call.Args[3])
+			d3 := desc(callArgs(call)[3])
 			// Crt(res, n, locRes, fac): n is the running product object, fac this factor
 			if d3 == "arg#1[#i]" || d3 == "arg#1[*]" {
 				for _, c2 := range callsIn(fn) {
-					if bigMethod(c2) == "Mul" && siteOf(c2.Common().Args[0]) == siteOf(call.Call.Args[1]) {
-						a2 := c2.Common().Args
+					if bigMethod(c2) == "Mul" && siteOf(callArgs(c2)[0]) == siteOf(callArgs(call)[1]) {
+						a2 := callArgs(c2)
 						if siteOf(a2[1]) == siteOf(a2[0]) && desc(a2[2]) == d3 && innermostLoopOf(c2.Block()) != nil && innermostLoopOf(call.Block()) != nil && innermostLoopOf(c2.Block()).Header == innermostLoopOf(call.Block()).Header {
 							okProd = true
 						}
@@ -366,7 +366,7 @@ func fastModRule(P *Program, R *Report) {
 			if !isC {
 				continue
 			}
-			key := bigMethod(c) + ":" + desc(call.Call.Args[0])
+			key := bigMethod(c) + ":" + desc(callArgs(call)[0])
 			if w, ok := want[key]; ok {
 				if r, has := be.Ret[call]; has && r.equal(w) {
 					got[key] = true
@@ -380,7 +380,7 @@ func fastModRule(P *Program, R *Report) {
 		okB := false
 		allInstrs(fn, func(i ssa.Instruction) {
 			if st, ok := i.(*ssa.Store); ok && desc(st.Addr) == fm+".b" {
-				if c, isC := stripConv(st.Val).(*ssa.Call); isC && bigMethod(c) == "BitLen" && desc(c.Call.Args[0]) == "arg#1" {
+				if c, isC := stripConv(st.Val).(*ssa.Call); isC && bigMethod(c) == "BitLen" && desc(callArgs(c)[0]) == "arg#1" {
 					okB = true
 				}
 			}
@@ -429,7 +429,7 @@ func fastModRule(P *Program, R *Report) {
 		if !ok || bigMethod(c) != "Mod" {
 			return false
 		}
-		return desc(c.Call.Args[0]) == "arg#1" && desc(c.Call.Args[1]) == "arg#2" && desc(c.Call.Args[2]) == fm+".p"
+		return desc(callArgs(c)[0]) == "arg#1" && desc(callArgs(c)[1]) == "arg#2" && desc(callArgs(c)[2]) == fm+".p"
 	}
 	nFallback := 0
 	for _, r := range returnsOf(fn) {
@@ -468,7 +468,7 @@ func fastModRule(P *Program, R *Report) {
 	// no other return may be reached with a negative x: the sign test dominates everything but the disabled fallback
 	var signBlock *ssa.BasicBlock
 	for _, c := range callsIn(fn) {
-		if bigMethod(c) == "Sign" && desc(c.Common().Args[0]) == "arg#2" {
+		if bigMethod(c) == "Sign" && desc(callArgs(c)[0]) == "arg#2" {
 			signBlock = c.Block()
 		}
 	}
@@ -496,7 +496,7 @@ func fastModRule(P *Program, R *Report) {
 		if c, ok := v.(*ssa.Call); ok {
 			switch bigMethod(c) {
 			case "Set":
-				src := desc(c.Call.Args[1])
+				src := desc(callArgs(c)[1])
 				qs := &MustPass{P: P, Match: func(a Atom) bool {
 					gd, ok := parseGuard(a, be)
 					if !ok {
@@ -512,7 +512,7 @@ func fastModRule(P *Program, R *Report) {
 				}
 				continue
 			case "Sub":
-				if desc(c.Call.Args[2]) == fm+".p" {
+				if desc(callArgs(c)[2]) == fm+".p" {
 					continue
 				}
 			}
@@ -531,7 +531,7 @@ func fastModRule(P *Program, R *Report) {
 			},
 			Instr: func(_ *ssa.Function, i ssa.Instruction) bool {
 				c, ok := i.(*ssa.Call)
-				return ok && bigMethod(c) == "Sub" && desc(c.Call.Args[0]) == "arg#1" && desc(c.Call.Args[1]) == "arg#1" && desc(c.Call.Args[2]) == fm+".p"
+				return ok && bigMethod(c) == "Sub" && desc(callArgs(c)[0]) == "arg#1" && desc(callArgs(c)[1]) == "arg#1" && desc(callArgs(c)[2]) == fm+".p"
 			}}
 		q.init()
 		res := q.search(fn, AcceptAny(), 0, searchOpts{startAt: []*mpState{{b: r.Block(), note: "return at " + P.Pos(r.Pos())}}, startInstr: r})
@@ -557,7 +557,7 @@ func safeprimeGenerateRule19(P *Program, R *Report) {
 		for _, c := range callsIn(ps) {
 			if bigMethod(c) == "ProbablyPrime" {
 				n++
-				if desc(c.Common().Args[1]) != "arg#1" {
+				if desc(callArgs(c)[1]) != "arg#1" {
 					ok = false
 				}
 			}
@@ -609,8 +609,8 @@ func groupExpRule(P *Program, R *Report) {
 	}
 	// exponent argument: .Go() of phi(arg#3 | folded)
 	var expV ssa.Value
-	if g, ok := texp.Call.Args[len(texp.Call.Args)-1].(*ssa.Call); ok && bigMethod(g) == "Go" {
-		expV = g.Call.Args[0]
+	if g, ok := callArgs(texp)[len(callArgs(texp))-1].(*ssa.Call); ok && bigMethod(g) == "Go" {
+		expV = callArgs(g)[0]
 	}
 	okSrc := false
 	if expV != nil && add != nil {
@@ -637,7 +637,7 @@ func groupExpRule(P *Program, R *Report) {
 				continue
 			}
 			n++
-			if desc(v) != "arg#3" && v != siteOf(add.Call.Args[0]) {
+			if desc(v) != "arg#3" && v != siteOf(callArgs(add)[0]) {
 				okSrc = false
 			}
 		}
@@ -650,7 +650,7 @@ func groupExpRule(P *Program, R *Report) {
 			return false
 		}
 		c, isC := stripConv(bo.X).(*ssa.Call)
-		if !isC || bigMethod(c) != "Cmp" || c.Call.Args[0] != expV || desc(c.Call.Args[1]) != ord {
+		if !isC || bigMethod(c) != "Cmp" || callArgs(c)[0] != expV || desc(callArgs(c)[1]) != ord {
 			return false
 		}
 		kk, okk := constInt(bo.Y)
